@@ -360,7 +360,22 @@ fn run_history(rng: &mut Rng, mode: &str, _k: usize) -> String {
         Publish(usize),
     }
     let mut script: std::collections::VecDeque<Sc> = std::collections::VecDeque::new();
-    if pool == 1 && rng.chance(1, 2) {
+    if pool == 1 && rng.chance(1, 6) {
+        // items pushed WHILE a run is in the middle of its scoring pass (parked at its k-th item), the run then completes
+        // un-cancelled and the next tick collects it: the late items must neither be lost nor counted before they are scored
+        script.push_back(Sc::Op(0));
+        for _ in 0..(5 + rng.below(4)) {
+            script.push_back(Sc::Op(4));
+        }
+        script.push_back(Sc::Text(0, ["o", "b", "a", "f"][rng.below(4) as usize].to_string(), false));
+        script.push_back(Sc::Tick(3, 1 + rng.below(3)));
+        for _ in 0..(2 + rng.below(3)) {
+            script.push_back(Sc::Op(4));
+        }
+        script.push_back(Sc::Op(19)); // release the parked run
+        script.push_back(Sc::Tick(0, 0));
+        script.push_back(Sc::Tick(0, 0));
+    } else if pool == 1 && rng.chance(1, 2) {
         script.push_back(Sc::Op(0)); // injector
         for _ in 0..(4 + rng.below(6)) {
             script.push_back(Sc::Op(4)); // push / extend
